@@ -6,6 +6,7 @@ mod c02;
 mod c07;
 mod c09;
 mod c12;
+mod c13;
 mod c16;
 mod shape_corr;
 mod corpus;
@@ -22,6 +23,8 @@ mod cli;
 mod c05;
 mod c15;
 mod sessrun;
+mod c17;
+mod c19;
 mod util;
 
 use std::path::PathBuf;
@@ -61,6 +64,10 @@ fn main() {
         "c20" => c20::run(&tier, seed, &out),
         "c05" => c05::run(&tier, seed, &out),
         "c15" => c15::run(&tier, seed, &out),
+        "c17" => c17::run(&tier, seed, &out),
+        "c19" => c19::run(&tier, seed, &out),
+        "c13" => c13::run(&tier, seed, &out),
+        "c13api" => c13::api_main(&args[2..]),
         "probe" => probe(&out),
         // rfverif tokens <file> [keep]  : the encoded token list of a file (for the C01/C03 validators)
         "tokens" => { let src = std::fs::read_to_string(&args[2]).unwrap_or_default(); println!("{}", toks::encode_tokens(&src, args.get(3).map(|s| s == "keep").unwrap_or(false))); 0 }
